@@ -583,8 +583,8 @@ func runDynamic(c Case) kit.Result {
 
 var dynSpec = kit.Spec[Case]{
 	Prop: "C16", Name: "dynamic",
-	Rule: "dynamic directory; history of <=36 (thorough 40) adds/replacements/removals over colliding + general names and targets with CID lengths 24..68 bytes; per-directory threshold = estimated size of one of the history's own intermediate entry sets + {-1,0,+1} in the configured estimation mode, maxLinks = size of one intermediate set + {-1,0,+1}; after every op: HAMT <=> documented rule on the current set (size computed independently), GetHAMTShardingSize/GetMaxLinks == configured, root CID == canonical sorted fresh build; non-trivial = the history crossed the sharding boundary in both directions",
-	Quick: 4000, Thorough: 15000,
+	Rule:  "dynamic directory; history of <=36 (thorough 40) adds/replacements/removals over colliding + general names and targets with CID lengths 24..68 bytes; per-directory threshold = estimated size of one of the history's own intermediate entry sets + {-1,0,+1} in the configured estimation mode, maxLinks = size of one intermediate set + {-1,0,+1}; after every op: HAMT <=> documented rule on the current set (size computed independently), GetHAMTShardingSize/GetMaxLinks == configured, root CID == canonical sorted fresh build; non-trivial = the history crossed the sharding boundary in both directions",
+	Quick: 3000, Thorough: 15000,
 	Gen: genDynamic, Run: runDynamic,
 	Sample: func(c Case) any {
 		return map[string]any{"cfg": c.Cfg, "n_ops": len(c.Ops), "every_step": c.EveryStep}
@@ -682,8 +682,8 @@ func runHamt(c Case) kit.Result {
 
 var hamtSpec = kit.Spec[Case]{
 	Prop: "C16", Name: "hamt",
-	Rule: "pure HAMT directory, fanout 8..1024; same histories; root CID == canonical sorted fresh build after every op (or at the end); non-trivial = a removal collapsed a sub-shard (model shard count decreased)",
-	Quick: 2000, Thorough: 6000,
+	Rule:  "pure HAMT directory, fanout 8..1024; same histories; root CID == canonical sorted fresh build after every op (or at the end); non-trivial = a removal collapsed a sub-shard (model shard count decreased)",
+	Quick: 1500, Thorough: 6000,
 	Gen: genHamt, Run: runHamt,
 	Sample: func(c Case) any {
 		return map[string]any{"cfg": c.Cfg, "n_ops": len(c.Ops), "every_step": c.EveryStep}
